@@ -335,7 +335,11 @@ def finding_for(ctx, sig, config):
 
 def run(ctx):
     t0 = time.time()
-    ctx.lean_stage([], ["Verif.Props.C01", "Verif.Props.BqCount"])
+    ctx.lean_stage(["emph_chars", "entities"], ["Verif.Props.C01", "Verif.Props.BqCount", "Verif.Props.LinkRecog", "Verif.Props.InlineRecog", "Verif.Props.Emphasis"])
+    import blocks
+    blocks.linkrecog(ctx)      # link_recognisers_total, lrd_total: no IndexError / assert, indices in range, progress
+    blocks.inlinerecog(ctx)    # inline_recognisers_total_partial, tag scanners, fuel sufficiency
+    blocks.emphasis(ctx)       # resolve_total_partial, fuel_sufficient_partial, fuel_monotone
     ctx.block("bqcountlib", "bqcount")          # block-quote marker counting: totality / termination / spec (Verif.Props.BqCount)
     rej_ok, rej_txt = natural_definition_rejected()
     if not rej_ok:
